@@ -183,7 +183,7 @@ def r11_3(ctx):
 def r11_6(ctx):
     """futf (character boundaries of pop_front_char / char-run pops): byte classes and decode thresholds are UTF-8's"""
     from lib.flat import scalar_consts, Config, explore, run_body, showv
-    its = [it for it in ctx.ast.crates["tendril"] if it["k"] == "Fn" and it["name"] == "classify" and (it.get("self_ty") or "").strip() == "Byte" and it.get("body") is not None]
+    its = [it for it in ctx.ast.walkable("tendril") if it["k"] == "Fn" and it["name"] == "classify" and (it.get("self_ty") or "").strip() == "Byte" and it.get("body") is not None]
     if len(its) != 1:
         raise AnchorMissing("futf::Byte::classify not found")
     it = its[0]
@@ -191,7 +191,7 @@ def r11_6(ctx):
     want = lambda v: "Some(Ascii)" if v < 0x80 else "Some(Cont)" if v < 0xC0 else "Some(Start(2))" if v < 0xE0 else "Some(Start(3))" if v < 0xF0 else "Some(Start(4))" if v < 0xF8 else "None"
     bad = None
     for v in range(256):
-        cfg = Config(acquire={}, primitives=set(), inline={}, guards=set(), samples=[], accessors=set(), full_call_text=True, generic_loops=True, consts=scalar_consts(ctx.ast.crates["tendril"]))
+        cfg = Config(acquire={}, primitives=set(), inline={}, guards=set(), samples=[], accessors=set(), full_call_text=True, generic_loops=True, consts=scalar_consts(ctx.ast.walkable("tendril")))
         paths = explore(cfg, lambda run, v=v: run_body(run, it["body"], {pname: v}))
         outs = {showv(p["outcome"][1]) if len(p["outcome"]) > 1 else str(p["outcome"]) for p in paths}
         if outs != {want(v)} and bad is None:
